@@ -224,7 +224,9 @@ def run_unit(u, repo=None, keep_trace=True):
                     o, e = open(fo.name, "rb").read(), b""
                     try:
                         js_try = json.loads(o.decode(errors="replace"))
-                        if any("result" in it for it in js_try):
+                        # a back end whose solver died (killed, out of memory) reports status ERROR: it never decides
+                        errored = any(it.get("cProverStatus") == "error" for it in js_try) or any(r.get("status") == "ERROR" for it in js_try for r in it.get("result", []))
+                        if any("result" in it for it in js_try) and not errored:
                             done = (b, c, o, e, pr.returncode)
                             break
                     except Exception:
@@ -275,7 +277,10 @@ def run_unit(u, repo=None, keep_trace=True):
     if ignoring:
         raise Undecided("cbmc ignored a construct in %s: %s" % (u.name, ignoring[0]))
     total = len(results)
-    failed = [r for r in results if r["status"] != "SUCCESS"]
+    if any(it.get("cProverStatus") == "error" for it in js) or any(r["status"] == "ERROR" for r in results):
+        raise Undecided("back end error in %s (solver died or was killed; statuses ERROR): %s" % (u.name, " | ".join(messages[-3:])))
+    failed = [r for r in results if r["status"] == "FAILURE"]
+    unknown = [r for r in results if r["status"] not in ("SUCCESS", "FAILURE")]
     # reachability guards: `canary.reach` at the end of the harness and any `cover.<name>` assertion
     # (written as assert(!situation)) MUST fail, i.e. the situation is reachable under the preconditions
     def is_guard(r):
@@ -287,6 +292,9 @@ def run_unit(u, repo=None, keep_trace=True):
     if covers_unreached:
         raise Undecided("vacuity guard: situation %r is not reachable under the unit's preconditions" % covers_unreached[0]["description"])
     real_failed = [r for r in failed if not is_guard(r)]
+    if unknown and not real_failed:
+        # UNKNOWN only follows a real FAILURE (cbmc stops refining); on its own it decides nothing
+        raise Undecided("cbmc left %d obligations UNKNOWN in %s without a failing one" % (len(unknown), u.name))
     if not u.no_canary and not canary:
         raise Undecided("vacuity guard: canary assertion at the end of %s was not reachable/failing" % u.entry)
     n_oblig = total - len([r for r in results if is_guard(r)])
